@@ -11,6 +11,7 @@ Not decided: the inductive correctness of Kahn's loop itself.
 """
 from .common import *
 from ..sym import Sym, run_function
+from ..pred import resolve, conj
 from .. import pw as PW
 
 EXPLANATION = __doc__
@@ -59,6 +60,10 @@ def kahn_rules(rep, prog, f, S):
         if is01 and len(cand) == 1:
             deg_ = cand[0]
             work = [k for k in work if k != deg_]
+    if len(mats) == 0 and len(lists) == 1 and len(work) == 2:
+        r_ = kahn_counters(rep, S, f, q, (lw, w), (lf, fo), state, lists[0], work)
+        if r_ is not None:
+            return r_
     if len(mats) != 1 or len(lists) != 1 or len(work) != 1:
         rep.unk("KAHN.shape", fwhere(f), "loop state is not (working matrix, work list, output list): %s" % sorted(state))
         return "unread"
@@ -212,6 +217,113 @@ def kahn_rules(rep, prog, f, S):
     rep.check("KAHN.leftover", kind is not None, fwhere(f, node), "after the loop: %s => ValueError; otherwise the ordering is returned" % (
         "entries left in the working matrix" if kind == "entries" else "fewer nodes emitted than the graph has"),
         "the leftover (cycle) check is missing or does not guard the return")
+    return kind
+
+
+def kahn_counters(rep, S, f, q, wl, fl, state, out_, work):
+    """Kahn's algorithm as most textbooks state it: no edge is deleted; every node keeps the number of its parents that have not
+    been emitted yet (the column counts of the 0/1 pattern to start with), each emitted node decrements the counter of each of its
+    children once, a child whose counter reaches 0 joins the work list, and whatever has a positive counter at the end lies on or
+    behind a cycle.  (The form is recognised by its state - counters, work list, output - before any rule is applied, so what the rules then find is
+    decided: `rep.decide`, not the shape-gated `rep.check`.)  Self-loops and two-cycles are counted in the columns but never decremented (ch() excludes both), so their
+    nodes never become ready: the leftover test catches them whichever way it is written.  -> leftover kind, or None (not this form)"""
+    (lw, w), (lf, fo) = wl, fl
+    ax0 = (("axis", ("const", 0)),)
+
+    def counted(v):
+        if v[0] == "method" and v[2] == "sum" and (v[4] == ax0 or v[3] == (("const", 0),)) and not (v[3] and v[4]):
+            return v[1]
+        if v[0] == "ext" and v[1] in ("numpy.sum", "numpy.count_nonzero") and len(v[2]) == 1 and v[3] == ax0:
+            return v[2][0]
+        return None
+
+    def pattern01(m):
+        b = m
+        while b[0] == "method" and b[2] == "copy" and not b[3]:
+            b = b[1]
+        if b[0] == "method" and b[2] == "astype" and b[3][:1] in ((("extref", "int"),), (("extref", "bool"),)) and b[1][0] == "cmp" and b[1][1] == "!=" and is_const(b[1][3], 0):
+            return derives_patternwise(b[1][2], "A")
+        return b[0] == "cmp" and b[1] == "!=" and is_const(b[3], 0) and derives_patternwise(b[2], "A")
+    cand = [(k, counted(state[k])) for k in work if counted(state[k]) is not None]
+    cand = [(k, m) for k, m in cand if pattern01(m) or (state[k][0] == "ext" and state[k][1] == "numpy.count_nonzero" and derives_patternwise(m, "A"))]
+    if len(cand) != 1:
+        ax1 = (("axis", ("const", 1)),)
+        rowwise = [k for k in work if (state[k][0] == "method" and state[k][2] == "sum" and state[k][4] == ax1 and pattern01(state[k][1])) or
+                   (state[k][0] == "ext" and state[k][1] in ("numpy.sum", "numpy.count_nonzero") and len(state[k][2]) == 1 and state[k][3] == ax1 and pattern01(state[k][2][0]))]
+        if len(rowwise) == 1 and not cand:
+            rep.bad("KAHN.sources", fwhere(f, w["node"]), "the counters start as row counts (axis=1, the number of children), not as the number of parents: the nodes emitted first are the sinks")
+            return "entries"
+        return None
+    deg_, M = cand[0]
+    wl_ = [k for k in work if k != deg_][0]
+    muW, muO, muD = ("mu", lw, wl_), ("mu", lw, out_), ("mu", lw, deg_)
+    # sources: the nodes whose counter is 0 to start with
+    src = state[wl_]
+    while src[0] == "ext" and src[1] in ("list", "sorted", "collections.deque") and len(src[2]) == 1:
+        src = src[2][0]
+    cond = None
+    if src[0] == "sub" and is_const(src[2], 0) and src[1][0] == "ext" and src[1][1] in ("numpy.where", "numpy.nonzero") and len(src[1][2]) == 1:
+        cond = src[1][2][0]
+    elif src[0] == "ext" and src[1] == "numpy.flatnonzero" and len(src[2]) == 1:
+        cond = src[2][0]
+    oks = cond is not None and npred(cond, True) in (npred(("cmp", "==", state[deg_], ("const", 0)), True),)
+    rep.decide("KAHN.sources", oks, fwhere(f, w["node"]), "the work list starts with the nodes whose parent counter is 0", "Kahn start set deviates: initial work list is %s" % fmt(state[wl_])[:100])
+    popped = None
+    nxO = w["next"][out_]
+    if nxO[0] == "mut" and nxO[1] == muO and nxO[2] == "append" and len(nxO[3]) == 1:
+        popped = nxO[3][0]
+    ok = popped is not None and popped[0] == "method" and popped[1] == muW and popped[2] == "pop"
+    rep.decide("KAHN.emit", ok, fwhere(f, w["node"]), "each round pops one node from the work list and appends exactly that node to the ordering",
+              "the emitted node is not the popped node: ordering' = %s" % fmt(nxO)[:100])
+    pt = npred(w["test"], True)
+    rep.decide("KAHN.loop", pt in (("nonempty", muW), ("atom", muW, True)), fwhere(f, w["node"]), "runs while the work list is non-empty", "loop condition is %s" % pred_fmt(pt))
+    if not ok:
+        return "entries"
+    j = ("elem", fo["iter"])
+    same_pattern = [M, ("param", "A")]
+    b = M
+    while b[0] == "method" and b[2] in ("copy", "astype"):
+        b = b[1]
+        same_pattern.append(b)
+    okc = fo["iter"][0] == "call" and fo["iter"][1] == U + "ch" and fo["iter"][2][:1] == (popped,) and fo["iter"][2][1] in same_pattern
+    rep.decide("KAHN.children", okc, fwhere(f, fo["node"]), "visits the children of the emitted node (in the unchanged pattern)", "inner loop runs over %s" % fmt(fo["iter"])[:100])
+    sts = [s_ for s_ in S.select("store", root=q) if lf in s_.loops]
+    loopfact = [x for x in S.select("loop", root=q) if x.lid == lf]
+    once = len(sts) == 1 and sts[0].base == ("mu", lf, deg_) and sts[0].idx == j and sts[0].aug == "-" and is_const(sts[0].value, 1) and \
+        bool(loopfact) and resolve(conj(sts[0].path)) == resolve(conj(loopfact[0].path))
+    if not once and len(sts) == 1 and sts[0].base[0] == "mu" and sts[0].base[2] == deg_:
+        once = sts[0].idx == j and sts[0].aug == "-" and is_const(sts[0].value, 1) and not [c for c in sts[0].path if c not in (loopfact[0].path if loopfact else ())]
+    rep.decide("KAHN.remove-edge", once, fwhere(f, sts[0].node if sts else fo["node"]), "every visited edge i -> j takes one off the counter of j (deg[j] -= 1, unconditionally)",
+              "the counter of a child is not decremented exactly once per visited edge")
+    if once:
+        dupd = ("store", sts[0].base, sts[0].idx, sts[0].value, "-")
+        apps = [c for c in S.select("call", root=q) if c.callkind == "method" and c.target == ".append" and lf in c.loops]
+        okr = len(apps) == 1 and apps[0].args == [j] and apps[0].recv[0] == "mu" and apps[0].recv[2] == wl_ and apps[0].path and \
+            npred(apps[0].path[-1][0], apps[0].path[-1][1]) in (("==0", (((("sub", dupd, j),), 1),)), ("==0", (((("sub", dupd, j),), -1),)), ("atom", ("sub", dupd, j), False)) and \
+            tuple(apps[0].path[:-1]) == tuple(sts[0].path) and apps[0].order > sts[0].order
+        rep.decide("KAHN.ready", okr, fwhere(f, apps[0].node if apps else None), "a child joins the work list exactly when its counter reaches 0, tested after the decrement",
+                  "readiness test is not `deg[j] == 0` on the decremented counter followed by sinks.append(j)")
+    kind, node = None, None
+    rets = [r_ for r_ in S.select("return", root=q) if r_.value[0] == "after"]
+    aD, aO = ("after", lw, deg_), ("after", lw, out_)
+    for r in [r for r in S.select("raise", root=q) if r.exctype == "ValueError" and not r.loops and r.path]:
+        c, pol = r.path[-1]
+        pn = npred(c, pol)
+        k_ = None
+        if pn in ((">0", (((("method", aD, "sum", (), ()),), 1),)), ("!=0", (((("method", aD, "sum", (), ()),), 1),)), ("atom", ("method", aD, "any", (), ()), True),
+                  (">0", (((("ext", "numpy.sum", (aD,), ()),), 1),)), ("atom", ("ext", "numpy.any", (aD,), ()), True),
+                  ("atom", ("method", ("cmp", ">", aD, ("const", 0)), "any", (), ()), True), ("atom", ("ext", "numpy.any", (("cmp", ">", aD, ("const", 0)),), ()), True)):
+            k_ = "entries"
+        elif pn[0] in (">0", "!=0"):
+            d = dict(pn[1])
+            lo = ("ext", "len", (aO,), ())
+            for sz in (("ext", "len", (("param", "A"),), ()), ("ext", "len", (M,), ()), ("sub", ("attr", ("param", "A"), "shape"), ("const", 0)), ("ext", "len", (aD,), ()), ("ext", "len", (state[deg_],), ())):
+                if d == {(sz,): 1, (lo,): -1} or (pn[0] == "!=0" and d in ({(sz,): -1, (lo,): 1}, {(sz,): 1, (lo,): -1})):
+                    k_ = "entries"          # fewer nodes emitted than there are: nodes on self-loops / two-cycles never become ready in this form
+        if k_ and rets and all(r_.value == aO for r_ in rets) and any((c, not pol) in r_.path for r_ in rets):
+            kind, node = k_, r.node
+    rep.decide("KAHN.leftover", kind is not None, fwhere(f, node), "after the loop: a positive counter is left (or fewer nodes emitted than the graph has) => ValueError; otherwise the ordering is returned",
+              "the leftover (cycle) check is missing or does not guard the return")
     return kind
 
 
